@@ -13,7 +13,7 @@ PartSp(part, kind, norm) ==
                     "Transfer-Encoding"}
     [] part = 2 -> {"X-B", "Content-Type", "Host", "Server"}
     [] part = 3 -> {"X-A", "X-B", "Trailer", IF kind = "req" THEN "Cookie" ELSE "Set-Cookie"}
-PartTyped(part) == CASE part = 1 -> {"framing"} [] part = 2 -> {"slot"} [] part = 3 -> {"cookie"}
+PartTyped(part) == CASE part = 1 -> {"framing"} [] part = 2 -> {"slot"} [] part = 3 -> IF @@LOAD@@ THEN {"cookie", "load"} ELSE {"cookie"}
 MCConfigs == { [kind |-> k, norm |-> n, sp |-> PartSp(p, k, n), typed |-> PartTyped(p),
                 ops |-> {"Set", "Add", "Del"}, ov |-> {"v1", "v2", ""}] :
                k \in {"req", "resp"}, n \in BOOLEAN, p \in 1..3 }
